@@ -35,7 +35,19 @@ def ctx(name):
     return _CTX[name]
 
 
-def make_visitor():
+# what the callbacks return: unique truthy tokens, or -- in 'falsy' mode -- a rotation of values
+# that are all false in a boolean context (a visitor may return anything, e.g. '' for a macro
+# that renders to nothing, 0 for a count, None by default)
+FALSY = [0, '', None, (), False, 0.0]
+
+
+def result_value(mode, counter):
+    if mode == 'falsy':
+        return FALSY[counter % len(FALSY)]
+    return ('tok', counter)      # modes 'tok' and 'generic'
+
+
+def make_visitor(mode='tok'):
     from pylatexenc.latexnodes.nodes import LatexNodesVisitor
 
     class Recorder(LatexNodesVisitor):
@@ -46,7 +58,7 @@ def make_visitor():
         def _rec(self, cb, obj, kwargs):
             self.counter += 1
             self.log.append((cb, id(obj), dict(kwargs)))
-            return ('tok', self.counter)
+            return result_value(mode, self.counter)
 
         def visit_chars_node(self, node, **kw): return self._rec('visit_chars_node', node, kw)
         def visit_group_node(self, node, **kw): return self._rec('visit_group_node', node, kw)
@@ -61,13 +73,26 @@ def make_visitor():
             return self._rec('visit_parsed_arguments', pa, kw)
         def visit_unknown_node(self, node, **kw): return self._rec('visit_unknown_node', node, kw)
         def visit(self, node, **kw): return self._rec('visit', node, kw)
+    if mode == 'generic':
+        # a visitor that only reimplements visit(): every default visit_* callback must relay to it
+        class Generic(LatexNodesVisitor):
+            def __init__(self):
+                self.log = []
+                self.counter = 0
+
+            def visit(self, node, **kw):
+                self.counter += 1
+                self.log.append(('visit', id(node), dict(kw)))
+                return ('tok', self.counter)
+        return Generic()
     return Recorder()
 
 
 class Expect(object):
     """own post-order enumeration"""
 
-    def __init__(self):
+    def __init__(self, mode='tok'):
+        self.mode = mode
         self.log = []
         self.counter = 0
         self.maxdepth = 0
@@ -76,7 +101,7 @@ class Expect(object):
     def rec(self, cb, obj, kwargs):
         self.counter += 1
         self.log.append((cb, id(obj), kwargs))
-        return ('tok', self.counter)
+        return result_value(self.mode, self.counter)
 
     def children(self, nodelist, depth):
         if nodelist is None:
@@ -123,25 +148,27 @@ class Expect(object):
 
 
 def same_value(got, want):
-    if want == EMPTY:
+    if isinstance(want, str) and want == EMPTY:
         return got is None or got == [] or got == ''
     if isinstance(want, list):
         return isinstance(got, list) and len(got) == len(want) and \
             all(same_value(g, w) for g, w in zip(got, want))
-    return got == want
+    return type(got) is type(want) and got == want
 
 
-def check_tree(s, nl, res, case):
+def check_tree(s, nl, res, case, mode='tok'):
     res.case()
-    exp = Expect()
+    exp = Expect(mode)
     exp.node(nl)
-    vis = make_visitor()
+    vis = make_visitor(mode)
     try:
         vis.start(nl)
     except Exception as e:
         res.fail(exc_key(e), exc_detail(e), case)
         return exp
     got, want = vis.log, exp.log
+    if mode == 'generic':
+        want = [('visit', w[1], w[2]) for w in want]
     ids_got = [g[1] for g in got]
     if len(set(ids_got)) != len(ids_got):
         dup = [g[0] for g in got if ids_got.count(g[1]) > 1]
@@ -165,7 +192,8 @@ def check_tree(s, nl, res, case):
             return exp
         for key in w[2]:
             if not same_value(g[2][key], w[2][key]):
-                res.fail('c19:child-results:%s:%s' % (g[0], key),
+                res.fail('c19:child-results:%s:%s%s' % (g[0], key, ':falsy-results' if mode == 'falsy'
+                                                        else ''),
                          '%s received %s=%r, its children returned %r'
                          % (g[0], key, g[2][key], w[2][key]), case)
                 return exp
@@ -193,7 +221,7 @@ def plan(tier, seed):
     return {'shards': shards, 'bounds': {'documents': ndocs, 'soup_len': L, 'random_soups': nrand},
             'required_classes': ['cb:' + c for c in CALLBACK.values()] +
                                 ['cb:visit_parsed_arguments', 'has-absent-argument-or-body',
-                                 'non-trivial', 'tolerant-tree']}
+                                 'non-trivial', 'tolerant-tree', 'falsy-results', 'generic-visit-only']}
 
 
 def do_source(s, ctxname, tolerant, res, case):
@@ -209,6 +237,10 @@ def do_source(s, ctxname, tolerant, res, case):
         res.label('tolerant-tree')
     exp = check_tree(s, nl, res, case)
     classify(exp, res, s, case)
+    check_tree(s, nl, res, case, mode='falsy')
+    res.label('falsy-results')
+    check_tree(s, nl, res, case, mode='generic')
+    res.label('generic-visit-only')
 
 
 def run_shard(shard, res):
